@@ -270,6 +270,27 @@ def family_place_grid(tier, seed):
                 m = {"id": "1.100000001", "event_id": "30000001", "market_type": "WIN", "winners": 1, "bsp": True, "persistence": True, "runners": [11, 12], "updates": ups}
                 out.append({"id": "pg%d" % k, "cfg": {"bpe": bpe}, "markets": [m],
                             "strategies": [{"name": "A", "max_live_trade_count": 1000, "max_trade_count": 100000, "script": {"1.100000001|0|book": acts[c0:c0 + chunk]}}]})
+    # prices that are valid on the market's own ladder but not on the classic one: FINEST (0.01 steps) and a
+    # LINE_RANGE market (the "price" is the line): placement must use the order's price as it is
+    for tag, mdef, atb, atl, orders in (
+        ("fin", {"ladder": "FINEST"}, [[3.05, 4.0], [3.0, 4.0]], [[3.06, 4.0], [3.1, 4.0]],
+         [("BACK", 3.02, 6.0), ("BACK", 3.07, 2.0), ("BACK", 3.05, 6.0), ("LAY", 3.08, 6.0), ("LAY", 3.03, 2.0), ("LAY", 3.06, 6.0), ("BACK", 2.99, 10.0), ("LAY", 3.11, 10.0)]),
+        ("lin", {"ladder": "LINE_RANGE", "line": [300.5, 0.5, 1.0], "betting_type": "LINE", "market_type": "INNINGS_RUNS"}, [[152.5, 4.0], [150.5, 4.0]], [[156.5, 4.0], [158.5, 4.0]],
+         [("BACK", 154.5, 6.0), ("BACK", 151.5, 6.0), ("BACK", 152.5, 2.0), ("LAY", 155.5, 6.0), ("LAY", 157.5, 6.0), ("LAY", 156.5, 2.0), ("BACK", 149.5, 10.0), ("LAY", 159.5, 10.0)]),
+    ):
+        for bpe in (True, False):
+            k += 1
+            acts = []
+            for i, (side, price, size) in enumerate(orders):
+                a = {"op": "place", "o": "%s%d" % (tag, i), "t": "t%s%d" % (tag, i), "sel": 11, "side": side, "price": price, "size": size, "ladder": mdef["ladder"], "pers": "PERSIST"}
+                if mdef["ladder"] == "LINE_RANGE":
+                    a["line"] = [0.5, 300.5, 1.0]
+                acts.append(a)
+            ups = [{"pt": 1000 * j, "status": "OPEN", "version": 1, "rstat": {"11": ["ACTIVE", None, None], "12": ["ACTIVE", None, None]},
+                    "books": {"11": _bk(atb, atl, []), "12": _bk([[5.0, 10.0]], [[5.5, 10.0]], [])}} for j in range(3)]
+            m = dict({"id": "1.100000001", "event_id": "30000001", "market_type": "WIN", "winners": 1, "bsp": False, "persistence": True, "runners": [11, 12], "updates": ups}, **mdef)
+            out.append({"id": "pg%s%d" % (tag, k), "cfg": {"bpe": bpe}, "markets": [m],
+                        "strategies": [{"name": "A", "max_live_trade_count": 1000, "max_trade_count": 100000, "script": {"1.100000001|0|book": acts}}]})
     return out
 
 
@@ -303,4 +324,68 @@ def family_handicap_lines(tier, seed):
              "persistence": True, "runners": runners, "updates": ups}
         out.append({"id": "hl%d" % k, "cfg": {}, "markets": [m],
                     "strategies": [{"name": "A", "max_live_trade_count": 1000, "script": {"1.100000001|0|book": acts}}]})
+    return out
+
+
+def family_failed_packages(tier, seed):
+    """multi-order cancel / update / replace packages every instruction of which fails: the market suspends
+    while the package is in flight (the simulated exchange refuses requests on a market that is not open)"""
+    out = []
+    k = 0
+    for op in ("cancel", "update", "replace"):
+        for n in ((2, 3) if tier == "quick" else (2, 3, 5)):
+            for mixed in (False, True):
+                k += 1
+                def up(pt, status="OPEN", version=1):
+                    return {"pt": pt, "status": status, "version": version, "rstat": {"11": ["ACTIVE", 50.0, None], "12": ["ACTIVE", 50.0, None]},
+                            "books": {"11": _bk([[2.0, 20.0]], [[2.4, 20.0]], []), "12": _bk([[3.0, 10.0]], [[3.4, 10.0]], [])}}
+                ups = [up(0), up(200), up(1000), up(1100, "SUSPENDED"), up(1300, "SUSPENDED"), up(2000), up(3000)]
+                place = [{"op": "place", "o": "f%d" % i, "t": "tf%d" % i, "sel": 11, "side": "BACK", "price": 2.2 + 0.02 * i, "size": 2.0} for i in range(n)]
+                acts = []
+                for i in range(n):
+                    a = {"op": op, "o": "f%d" % i}
+                    if op == "update":
+                        a["pers"] = "PERSIST"
+                    if op == "replace":
+                        a["price"] = 2.5
+                    acts.append(a)
+                script = {"1.100000001|0|book": place, "1.100000001|1000|book": [{"op": "txn", "actions": acts}]}
+                if mixed:   # one of the orders is cancelled individually just before: its instruction in the package meets a complete order
+                    script["1.100000001|200|book"] = [{"op": "cancel", "o": "f0"}]
+                m = {"id": "1.100000001", "event_id": "30000001", "market_type": "WIN", "winners": 1, "bsp": True, "persistence": True, "runners": [11, 12], "updates": ups}
+                out.append({"id": "fp%d" % k, "cfg": {"transaction_limit": 50}, "markets": [m],
+                            "strategies": [{"name": "A", "max_live_trade_count": 1000, "script": script}]})
+    return out
+
+
+def family_early_result(tier, seed):
+    """a runner is settled (LOSER / WINNER / HIDDEN) while the market is still OPEN or SUSPENDED, as in outright
+    and tournament markets: that is not a removal - matched and resting bets on it keep their sizes"""
+    out = []
+    k = 0
+    for early in (["LOSER"], ["WINNER"], ["HIDDEN"], ["LOSER", "LOSER"]):
+        for status_at in ("OPEN", "SUSPENDED"):
+            k += 1
+            runners = [11, 12, 13]
+            ups = []
+            for j in range(7):
+                rstat = {"11": ["ACTIVE", 30.0, None], "12": ["ACTIVE", 30.0, None], "13": ["ACTIVE", 30.0, None]}
+                if j >= 3:
+                    rstat["11"][0] = early[0]
+                if j >= 4 and len(early) > 1:
+                    rstat["12"][0] = early[1]
+                books = {}
+                for r in runners:
+                    if rstat[str(r)][0] == "ACTIVE":
+                        books[str(r)] = _bk([[2.0, 20.0]], [[2.2, 20.0]], [[2.1, 2.0 * j]])
+                ups.append({"pt": 1000 * j, "status": status_at if j == 3 else "OPEN", "version": 1 + (1 if j >= 3 else 0), "rstat": rstat, "books": books})
+            fin = {"11": early[0] if early[0] != "HIDDEN" else "LOSER", "12": early[1] if len(early) > 1 else "WINNER", "13": "LOSER" if len(early) == 1 else "WINNER"}
+            ups.append({"pt": 8000, "status": "CLOSED", "version": 3, "rstat": {r: [st_, 30.0, None] for r, st_ in fin.items()}, "books": {}})
+            acts = []
+            for r in runners:
+                acts += [{"op": "place", "o": "e%dm" % r, "t": "te%dm" % r, "sel": r, "side": "BACK", "price": 2.0, "size": 4.0},     # matched at once
+                         {"op": "place", "o": "e%dr" % r, "t": "te%dr" % r, "sel": r, "side": "BACK", "price": 2.1, "size": 6.0, "pers": "PERSIST"},  # rests, fills partly
+                         {"op": "place", "o": "e%dl" % r, "t": "te%dl" % r, "sel": r, "side": "LAY", "price": 1.8, "size": 3.0, "pers": "PERSIST"}]   # rests unmatched
+            m = {"id": "1.100000001", "event_id": "30000001", "market_type": "WIN", "winners": 1 if len(early) == 1 else 2, "bsp": False, "persistence": True, "runners": runners, "updates": ups}
+            out.append({"id": "er%d" % k, "cfg": {}, "markets": [m], "strategies": [{"name": "A", "max_live_trade_count": 1000, "script": {"1.100000001|0|book": acts}}]})
     return out
